@@ -402,10 +402,22 @@ def gen_case(rng, i):
             items = [arr([rows, p], "f", rng.randint(0, 10 ** 6)) for p in parts]
             if malformed:
                 z = rng.randrange(len(items))
-                items[z] = rng.choice([arr([rows, parts[z] + 1], "f", 3), arr([rows + 1, parts[z]], "f", 4),
-                                       arr([rows, parts[z]], "o", 5), {"t": "num", "v": "1"}])
-                if rng.random() < 0.3:
-                    items = items[:-1]
+                q = rng.random()
+                if q < 0.2:        # every input holds several timesteps (call takes ONE) / one step too many everywhere
+                    items = [arr([rows + 1, p], "f", 6 + j) for j, p in enumerate(parts)]
+                elif q < 0.3:      # every input is a set of sequences (3-D)
+                    items = [arr([2, rows, p], "f", 8 + j) for j, p in enumerate(parts)]
+                elif q < 0.4:      # 1-D inputs (one step each: well-formed for call)
+                    items = [arr([p], "f", 10 + j) for j, p in enumerate(parts)]
+                elif q < 0.5:      # nested lists
+                    items = [{"t": "list", "items": [it]} for it in items]
+                else:
+                    items[z] = rng.choice([arr([rows, parts[z] + 1], "f", 3), arr([rows + 1, parts[z]], "f", 4),
+                                           arr([rows, parts[z]], "o", 5), {"t": "num", "v": "1"}])
+                    if rng.random() < 0.3:
+                        items = items[:-1]
+                    elif rng.random() < 0.15:
+                        items = items + [arr([rows, 2], "f", 12)]
             o["x"] = {"t": "list", "items": items}
         else:
             o["x"] = good_x(rng, op, d, T, cls)
@@ -462,6 +474,9 @@ def correspondence(ctx):
         a, b = rng.randint(1, 3), rng.randint(1, 3)
         ia, ib = rng.random() < 0.8, rng.random() < 0.8
         link_terms.append(_link_case(a, b, ia, ib))
+    # operands that are never-run Models (is_initialized False although their nodes are initialised) or lists
+    for lc in directed_links() + [gen_link(rng) for _ in range(ctx.n(80, 600))]:
+        link_terms.append(run_link(lc))
     # the runner and the model it executes are (re)built from the current sources, independently of the proofs
     ok, log, failed = core.compile_cone(core.coq_cone("run/RunC12.v"))
     if not ok:
@@ -473,7 +488,7 @@ def correspondence(ctx):
         if i < len(keep):
             fl.append(dict(keep[i], index=i))
         else:
-            fl.append({"scenario": {"link": link_terms[i - len(keep)][1]}, "index": i})
+            fl.append({"scenario": link_terms[i - len(keep)][1], "index": i})
     dist["link_cases"] = len(link_terms)
     return {"evaluations": len(cases) + len(link_terms), "distinct_nontrivial": len(nt),
             "rule": "seeded histories of 1-6 operations (call/run/train/partial_fit/fit) on every public node class "
@@ -488,24 +503,104 @@ def correspondence(ctx):
 
 
 def _link_case(a, b, ia, ib):
+    """node >> node (kept from the first version): dims a / b, initialised or not."""
+    return run_link({"left": {"form": "node", "nodes": [[a, ia]]}, "right": {"form": "node", "nodes": [[b, ib]]}, "how": ">>"})
+
+
+LEFT_FORMS = ["node", "model", "model2", "list"]       # node | fresh >> a | fresh >> [a, a2] | [a, a2]
+RIGHT_FORMS = ["node", "model", "model2", "list"]      # node | b >> fresh | (b >> fresh) & (b2 >> fresh2) | [b, b2]
+
+
+def gen_link(rng):
+    lf, rf = rng.choice(LEFT_FORMS), rng.choice(RIGHT_FORMS)
+    if lf == "list" and rf == "list":
+        rf = "model2"
+    d = rng.randint(1, 4)
+
+    def nodes(k):
+        out = []
+        for _ in range(k):
+            dim = d if rng.random() < 0.65 else rng.randint(1, 4)
+            out.append([dim, rng.random() < 0.85])
+        return out
+    how = ">>"
+    if lf != "list" and rf != "list" and rng.random() < 0.3:
+        how = "link"
+    if lf in ("model", "model2") and rf != "list" and rng.random() < 0.25:
+        how = ">>="
+    return {"left": {"form": lf, "nodes": nodes(2 if lf in ("model2", "list") else 1)},
+            "right": {"form": rf, "nodes": nodes(2 if rf in ("model2", "list") else 1)}, "how": how}
+
+
+def _build_operand(side, spec):
+    """Returns (operand, boundary nodes): the output nodes of a left operand / the input nodes of a right operand."""
     rpy()
     from reservoirpy.nodes import Identity
-    n1, n2 = Identity(name=uname("lk")), Identity(name=uname("lk"))
-    if ia:
-        n1.run(np.ones((1, a)))
-    if ib:
-        n2.run(np.ones((1, b)))
+    bn = []
+    for dim, init in spec["nodes"]:
+        n = Identity(name=uname("lk"))
+        if init:
+            n.run(np.ones((1, dim)))
+        bn.append(n)
+    f = spec["form"]
+    if f == "node":
+        return bn[0], bn
+    if f == "list":
+        return list(bn), bn
+    if side == "left":
+        src = Identity(name=uname("lks"))
+        return (src >> bn[0] if f == "model" else src >> bn), bn       # never-run Model whose exits are bn
+    if f == "model":
+        return bn[0] >> Identity(name=uname("lkt")), bn
+    return (bn[0] >> Identity(name=uname("lkt"))) & (bn[1] >> Identity(name=uname("lkt"))), bn
+
+
+def run_link(lc):
+    """Builds the operands, links them, observes whether a ValueError is raised and whether any dim changed.
+    Returns (Coq term, observation)."""
+    from reservoirpy import link
+    L, ls = _build_operand("left", lc["left"])
+    R, rs = _build_operand("right", lc["right"])
+    before = [(n.is_initialized, n.input_dim, n.output_dim) for n in ls + rs]
+    model_flags = [getattr(o, "is_initialized", None) if not isinstance(o, list) else None for o in (L, R)]
     try:
-        n1 >> n2
+        if lc["how"] == "link":
+            link(L, R)
+        elif lc["how"] == ">>=":
+            L >>= R
+        else:
+            L >> R
         raised = False
     except ValueError:
         raised = True
+    after = [(n.is_initialized, n.input_dim, n.output_dim) for n in ls + rs]
 
     def fr(dim, init):
         if not init:
             return "(fresh KSame None None)"
         return "(mkNode KSame true (Some [%s]) (Some %s) (Some [%s; %s]) 1 1 false false)" % (nat(dim), nat(dim), nat(1), nat(dim))
-    return "chk_link %s %s %s" % (fr(a, ia), fr(b, ib), coqbool(raised)), {"a": a, "b": b, "init_a": ia, "init_b": ib, "raised": raised}
+    term = "chk_links %s %s %s" % (coqlist([fr(*x) for x in lc["left"]["nodes"]]), coqlist([fr(*x) for x in lc["right"]["nodes"]]),
+                                   coqbool(raised))
+    return term, {"link": lc, "raised": raised, "untouched": before == after, "operand_is_initialized": model_flags}
+
+
+def judge_link(lc):
+    """Property side: two initialised nodes whose dimensions disagree must not be connected, however they are wrapped;
+    agreeing (or not yet known) dimensions must be accepted; linking never changes a dimension."""
+    _, o = run_link(lc)
+    mismatch = any(i1 and i2 and d1 != d2 for d1, i1 in lc["left"]["nodes"] for d2, i2 in lc["right"]["nodes"])
+    form = "%s-%s" % (lc["left"]["form"], lc["right"]["form"])
+    if mismatch and not o["raised"]:
+        return {"key": "accepted:link-dimension-mismatch:%s" % ("node-node" if form == "node-node" else "wrapped-operand"),
+                "what": "linking (%s, operands " + form + ") connects an initialised sender and an initialised receiver whose dimensions differ without raising" % lc["how"],
+                "scenario": {"link": lc}, "expected": "ValueError at link time", "observed": o}
+    if not mismatch and o["raised"]:
+        return {"key": "rejected:link-matching-dims", "what": "a link between compatible nodes (operands %s) is refused" % form,
+                "scenario": {"link": lc}, "expected": "accepted", "observed": o}
+    if not o["untouched"]:
+        return {"key": "dims-changed:link", "what": "linking changed a node's dimensions", "scenario": {"link": lc},
+                "expected": "dims untouched", "observed": o}
+    return None
 
 
 # ------------------------------------------------------------------------------------------ oracle on the implementation
@@ -689,8 +784,12 @@ def irregular_key(nd, o):
     x = o["x"]
     if x["t"] == "arr" and len(x["shape"]) >= 3:
         return "state-not-2d:3d-input"
+    if x["t"] == "list" and any(i["t"] == "arr" and len(i["shape"]) >= 3 for i in x["items"]):
+        return "state-not-2d:3d-input"
     if x["t"] == "list" and nd["cls"] == "Concat" and len(x["items"]) == 1:
         return "state-not-2d:concat-singleton-list"
+    if o["op"] == "call" and x["t"] == "list" and all(i["t"] == "arr" and len(i["shape"]) == 2 for i in x["items"]):
+        return "state-not-2d:multi-timestep-call"
     return "state-not-2d:irregular:%s" % short(nd["cls"])
 
 
@@ -707,7 +806,10 @@ def _bs(s):
 
 
 def judge(case):
-    v = _judge(case["scenario"]) if "ops" in case.get("scenario", {}) else []
+    sc = case.get("scenario", {})
+    if "link" in sc:
+        return judge_link(sc["link"])
+    v = _judge(sc) if "ops" in sc else []
     return v[0] if v else None
 
 
@@ -735,12 +837,36 @@ def directed_cases():
     two = {"t": "list", "items": [arr([1, 2], "f", 18), arr([1, 2], "f", 19)]}
     three = {"t": "list", "items": [arr([1, 2], "f", 18), arr([1, 2], "f", 19), arr([1, 3], "f", 20)]}
     cs.append({"node": {"cls": "Concat"}, "ops": [{"op": "call", "x": two}, {"op": "call", "x": three}, {"op": "call", "x": two}]})
+    # an INITIALISED multi-input node: call takes one timestep per input; per-input feature sizes; differing lengths
+    ok1 = {"t": "list", "items": [arr([1, 3], "f", 21), arr([1, 2], "f", 22)]}
+    for bad in ([arr([2, 3], "f", 23), arr([2, 2], "f", 24)], [arr([1, 3], "f", 23), arr([1, 4], "f", 24)],
+                [arr([1, 2], "f", 23), arr([1, 3], "f", 24)], [arr([1, 3], "o", 23), arr([1, 2], "f", 24)]):
+        cs.append({"node": {"cls": "Concat"}, "ops": [{"op": "call", "x": ok1}, {"op": "call", "x": {"t": "list", "items": bad}},
+                                                       {"op": "run", "x": {"t": "list", "items": [arr([4, 3], "f", 25), arr([4, 2], "f", 26)]}}]})
+    cs.append({"node": {"cls": "Concat"}, "ops": [{"op": "call", "x": ok1},
+                                                   {"op": "run", "x": {"t": "list", "items": [arr([4, 3], "f", 25), arr([5, 2], "f", 26)]}},
+                                                   {"op": "call", "x": {"t": "list", "items": [arr([3], "f", 27), arr([2], "f", 28)]}}]})
+    cs.append({"node": {"cls": "Concat"}, "ops": [{"op": "call", "x": {"t": "list", "items": [arr([2, 3], "f", 23), arr([2, 2], "f", 24)]}}]})
     # the two open findings: 3-D array to call / run of an initialised node; ragged feature counts on an uninitialised node
     cs.append({"node": {"cls": "Identity"}, "ops": [{"op": "run", "x": arr([2, 3], "f", 12)}, {"op": "call", "x": arr([2, 1, 3], "f", 13)}]})
     cs.append({"node": {"cls": "Identity"}, "ops": [{"op": "run", "x": arr([2, 3], "f", 12)}, {"op": "run", "x": arr([4, 3, 3], "f", 13)}]})
     cs.append({"node": {"cls": "Ridge"}, "ops": [{"op": "fit", "x": {"t": "list", "items": [arr([4, 3], "f", 14), arr([4, 4], "f", 15)]},
                                                    "y": {"t": "list", "items": [arr([4, 2], "f", 16), arr([4, 2], "f", 17)]}}]})
     return cs
+
+
+def directed_links():
+    out = []
+    for lf in LEFT_FORMS:
+        for rf in RIGHT_FORMS:
+            if lf == "list" and rf == "list":
+                continue
+            for dl, dr in ((3, 3), (5, 4)):
+                out.append({"left": {"form": lf, "nodes": [[dl, True]] * (2 if lf in ("model2", "list") else 1)},
+                            "right": {"form": rf, "nodes": [[dr, True]] * (2 if rf in ("model2", "list") else 1)}, "how": ">>"})
+    out.append({"left": {"form": "model", "nodes": [[5, True]]}, "right": {"form": "node", "nodes": [[4, True]]}, "how": ">>="})
+    out.append({"left": {"form": "model", "nodes": [[5, True]]}, "right": {"form": "model", "nodes": [[4, True]]}, "how": "link"})
+    return out
 
 
 def concat_exposure():
@@ -781,21 +907,32 @@ def oracle(ctx, scale=1):
             if v["key"] not in seen:          # one (the first) witness per key
                 seen.add(v["key"])
                 out.append(v)
+    links = directed_links() + [gen_link(rng) for _ in range(ctx.n(60, 500) * scale)]
+    for lc in links:
+        v = judge_link(lc)
+        if v and v["key"] not in seen:
+            seen.add(v["key"])
+            out.append(v)
     for key, what in concat_exposure():
         if key not in seen:
             seen.add(key)
             out.append({"key": key, "what": what, "scenario": {"concat_exposure": True}, "expected": None, "observed": what})
-    return {"evaluations": len(cases) + 2, "violations": out,
+    return {"evaluations": len(cases) + len(links) + 2, "violations": out,
             "rule": "on the real nodes, per operation: (i) dims never change once known; (ii) unsupported operations, non-array / non-numeric data, "
                     "lists where arrays are required and data whose feature size differs from the node's dims raise AND leave dims, state bytes and every "
                     "param bit-identical; (iii) accepted well-formed input of T steps returns (T, output_dim); (iv) state() is (1, output_dim) after any "
-                    "accepted operation; plus Delay / single-target ScikitLearnNode feeding a Concat inside a Model"}
+                    "accepted operation; plus Delay / single-target ScikitLearnNode feeding a Concat inside a Model; "
+                    "(v) links (>>, >>=, link) whose operands are nodes, never-run Models or lists: refused iff an initialised sender and an "
+                    "initialised receiver disagree, and no dimension changes"}
 
 
 def replay(payload):
     sc = payload["scenario"]
     if sc.get("concat_exposure"):
         v = [k for k, _ in concat_exposure() if k == payload.get("key")]
+        return {"violates": bool(v), "detail": v}
+    if "link" in sc:
+        v = judge_link(sc["link"])
         return {"violates": bool(v), "detail": v}
     vs = [v for v in _judge(sc) if payload.get("key") in (None, v["key"])]
     return {"violates": bool(vs), "detail": vs[:1]}
